@@ -14,7 +14,7 @@ demo=$(ls "$src"/demo_*.rs | head -1)
 dest=miniz_oxide/tests/$(basename "$demo")
 if grep -q "miniz_oxide_c_api" "$demo"; then dest=tests/$(basename "$demo"); fi
 if head -3 "$demo" | grep -q "^// .*\btests/demo" ; then
-  hint=$(head -3 "$demo" | grep -o "[a-z_/]*tests/demo_[A-Za-z0-9_]*\.rs" | head -1)
+  hint=$(head -3 "$demo" | grep -oE "(miniz_oxide(_test)?/)?tests/demo_[A-Za-z0-9_]*\.rs" | head -1)
   [ -n "$hint" ] && dest=$hint
 fi
 export CARGO_NET_OFFLINE=true
